@@ -37,3 +37,122 @@ Print Assumptions C05_first_is_full.
 Print Assumptions C05_full_after_fault.
 Print Assumptions C05_refresh.
 Print Assumptions C05_outstanding_is_left_alone.
+
+(* ---- handler side (package E, Handler.v): every fault after a wantlist was accepted ends in a Failed report:
+   start-sending timeout, flush/write error, close of the connection while outstanding; a failed stream allocation is
+   retried until the timeout. State-level statements; C05_handler_reports_ex (Handler_proofs) shows reachable states meet
+   the hypotheses. *)
+From BS Require Import Bytes Types FramedWrite Handler Handler_proofs.
+Open Scope N_scope.
+
+Theorem C05_handler_reports :
+  forall encode : message -> bytes,
+  (forall (st : hstate) (s : list io),
+   h_halted st = false ->
+   timeout_fired st = true ->
+   last_state (h_queue st) <> Some (SsFailed (h_conn st)) ->
+   (last_state (h_queue st) = None -> h_sending st <> SsFailed (h_conn st)) ->
+   (forall x : sending_state, last_state (h_queue st) = Some x -> h_sending st = x) ->
+   let r := do_poll encode st s in
+   In (HReport (RpFailed (h_conn st))) (snd r) /\
+   h_halted (fst r) = true /\
+   h_msg (fst r) = None /\ h_sink (fst r) = SkNone /\ h_timeout (fst r) = None /\ h_queue (fst r) = []) /\
+  (forall (st : hstate) (s : list io) (id : N) (buf : bytes),
+   h_queue st = [] ->
+   h_halted st = false ->
+   timeout_fired st = false ->
+   h_msg st = None ->
+   h_sink st = SkReady id buf ->
+   h_sending st <> SsFailed (h_conn st) ->
+   fr_res (fw_poll_flush buf s) = PrErr ->
+   let r := do_poll encode st s in
+   snd r =
+   map (hout_of_sev id) (fr_evs (fw_poll_flush buf s)) ++ [HDropped id; HReport (RpFailed (h_conn st))] /\
+   h_sink (fst r) = SkNone /\ h_sending (fst r) = SsFailed (h_conn st) /\ h_halted (fst r) = false) /\
+  (forall (st : hstate) (s : list io),
+   h_panicked st = false ->
+   h_closing st = false ->
+   (exists (t : time) (c : conn), h_sending st = SsRequestReceived t c \/ h_sending st = SsSending t c) ->
+   let r := hstep encode st (HPollClose s) in
+   (exists pre : list hout, snd r = pre ++ [HReport (RpFailed (h_conn st)); HClosing]) /\
+   h_msg (fst r) = None /\
+   h_sink (fst r) = SkNone /\
+   h_closing (fst r) = true /\ h_sending (fst r) = SsFailed (h_conn st) /\ h_queue (fst r) = []) /\
+  (forall (st : hstate) (s : list io) (m : message),
+   h_panicked st = false ->
+   h_queue st = [] ->
+   h_halted st = false ->
+   h_msg st = Some m ->
+   h_sink st = SkRequested ->
+   let st1 := fst (hstep encode st HAllocFailed) in
+   let r := hstep encode st1 (HPoll s) in
+   snd (hstep encode st HAllocFailed) = [] /\
+   (timeout_fired st = false ->
+    snd r = [HOpenStream] /\
+    h_sink (fst r) = SkRequested /\ h_msg (fst r) = Some m /\ h_halted (fst r) = false) /\
+   (timeout_fired st = true ->
+    h_sending st <> SsFailed (h_conn st) ->
+    In (HReport (RpFailed (h_conn st))) (snd r) /\ h_halted (fst r) = true)).
+Proof. exact (@Handler_proofs.C05_handler_reports). Qed.
+
+Theorem C05_timeout_reports_failed :
+  forall (encode : message -> bytes) (st : hstate) (s : list io),
+  h_halted st = false ->
+  timeout_fired st = true ->
+  last_state (h_queue st) <> Some (SsFailed (h_conn st)) ->
+  (last_state (h_queue st) = None -> h_sending st <> SsFailed (h_conn st)) ->
+  (forall x : sending_state, last_state (h_queue st) = Some x -> h_sending st = x) ->
+  let r := do_poll encode st s in
+  In (HReport (RpFailed (h_conn st))) (snd r) /\
+  h_halted (fst r) = true /\
+  h_msg (fst r) = None /\ h_sink (fst r) = SkNone /\ h_timeout (fst r) = None /\ h_queue (fst r) = [].
+Proof. exact (@Handler_proofs.C05_timeout_reports_failed). Qed.
+
+Theorem C05_flush_error_reports_failed :
+  forall (encode : message -> bytes) (st : hstate) (s : list io) (id : N) (buf : bytes),
+  h_queue st = [] ->
+  h_halted st = false ->
+  timeout_fired st = false ->
+  h_msg st = None ->
+  h_sink st = SkReady id buf ->
+  h_sending st <> SsFailed (h_conn st) ->
+  fr_res (fw_poll_flush buf s) = PrErr ->
+  let r := do_poll encode st s in
+  snd r = map (hout_of_sev id) (fr_evs (fw_poll_flush buf s)) ++ [HDropped id; HReport (RpFailed (h_conn st))] /\
+  h_sink (fst r) = SkNone /\ h_sending (fst r) = SsFailed (h_conn st) /\ h_halted (fst r) = false.
+Proof. exact (@Handler_proofs.C05_flush_error_reports_failed). Qed.
+
+Theorem C05_close_reports_failed :
+  forall (encode : message -> bytes) (st : hstate) (s : list io),
+  h_panicked st = false ->
+  h_closing st = false ->
+  (exists (t : time) (c : conn), h_sending st = SsRequestReceived t c \/ h_sending st = SsSending t c) ->
+  let r := hstep encode st (HPollClose s) in
+  (exists pre : list hout, snd r = pre ++ [HReport (RpFailed (h_conn st)); HClosing]) /\
+  h_msg (fst r) = None /\
+  h_sink (fst r) = SkNone /\
+  h_closing (fst r) = true /\ h_sending (fst r) = SsFailed (h_conn st) /\ h_queue (fst r) = [].
+Proof. exact (@Handler_proofs.C05_close_reports_failed). Qed.
+
+Theorem C05_alloc_failure_retries :
+  forall (encode : message -> bytes) (st : hstate) (s : list io) (m : message),
+  h_panicked st = false ->
+  h_queue st = [] ->
+  h_halted st = false ->
+  h_msg st = Some m ->
+  h_sink st = SkRequested ->
+  let st1 := fst (hstep encode st HAllocFailed) in
+  let r := hstep encode st1 (HPoll s) in
+  snd (hstep encode st HAllocFailed) = [] /\
+  (timeout_fired st = false ->
+   snd r = [HOpenStream] /\ h_sink (fst r) = SkRequested /\ h_msg (fst r) = Some m /\ h_halted (fst r) = false) /\
+  (timeout_fired st = true ->
+   h_sending st <> SsFailed (h_conn st) ->
+   In (HReport (RpFailed (h_conn st))) (snd r) /\ h_halted (fst r) = true).
+Proof. exact (@Handler_proofs.C05_alloc_failure_retries). Qed.
+
+Print Assumptions C05_handler_reports.
+Print Assumptions C05_timeout_reports_failed.
+Print Assumptions C05_flush_error_reports_failed.
+Print Assumptions C05_close_reports_failed.
+Print Assumptions C05_alloc_failure_retries.
